@@ -85,14 +85,20 @@ Proof.
 Qed.
 
 (* ---------- the tables ---------- *)
-Record core_ok (s : lstate) : Prop := {
+(* P = what is known about every literal that labels a leaf (non-zero, within the feature range);
+   literals_nx is exactly the set of literal leaves: one leaf per literal *)
+(* st = true: additionally only and / or nodes have outgoing edges (needs a file without edges out of
+   t / f nodes; not needed for the semantics theorem) *)
+Record core_ok (P : Z -> Prop) (st : bool) (s : lstate) : Prop := {
   co_inv : Inv (ls_g s);
   co_lits : forall l z, lookupZ (ls_lits s) l = Some z -> sg_label (ls_g s) z = Some (GLit l);
-  co_pos : forall z l, sg_label (ls_g s) z = Some (GLit l) -> l <> 0%Z
+  co_pos : forall z l, sg_label (ls_g s) z = Some (GLit l) -> P l;
+  co_inj : forall z l, sg_label (ls_g s) z = Some (GLit l) -> lookupZ (ls_lits s) l = Some z;
+  co_src : st = true -> srcs_ok (ls_g s)
 }.
 Definition tris_ok (s : lstate) : Prop :=
   forall f o, lookup_nat (ls_tri s) f = Some o -> tri_node (ls_g s) f o.
-Definition tables_ok (s : lstate) : Prop := core_ok s /\ tris_ok s.
+Definition tables_ok (P : Z -> Prop) (st : bool) (s : lstate) : Prop := core_ok P st s /\ tris_ok s.
 
 Lemma lookupZ_cons m k v k' : lookupZ ((k, v) :: m) k' = if Z.eqb k k' then Some v else lookupZ m k'.
 Proof. reflexivity. Qed.
@@ -114,17 +120,55 @@ Proof.
   intros Hin. destruct (Ht f o Hfo) as [_ [Hl _]]. now apply (HD o Hin).
 Qed.
 
+(* ---------- provenance of labels, growth of the triangle table ---------- *)
+Definition in_tab (s : lstate) (o : nat) : Prop := exists f, lookup_nat (ls_tri s) f = Some o.
+Definition tri_grow (s s' : lstate) : Prop :=
+  forall f o, lookup_nat (ls_tri s) f = Some o -> lookup_nat (ls_tri s') f = Some o.
+Definition is_litk (t : tid) : Prop := exists l, t = GLit l.
+(* every label of s' is a label of s, or belongs to a new leaf, a triangle of the table, or one
+   of the and nodes `ands` *)
+Definition lprov (s s' : lstate) (ands : list nat) : Prop :=
+  forall y t, sg_label (ls_g s') y = Some t ->
+    sg_label (ls_g s) y = Some t \/ is_litk t \/ (t = GOr /\ in_tab s' y) \/ (t = GAnd /\ In y ands).
+
+Lemma tri_grow_refl s : tri_grow s s.
+Proof. intros f o H. exact H. Qed.
+Lemma tri_grow_trans s1 s2 s3 : tri_grow s1 s2 -> tri_grow s2 s3 -> tri_grow s1 s3.
+Proof. intros H12 H23 f o H. apply H23, H12, H. Qed.
+Lemma tri_grow_eq s s' : ls_tri s' = ls_tri s -> tri_grow s s'.
+Proof. intros E f o H. now rewrite E. Qed.
+
+Lemma lprov_refl s : lprov s s [].
+Proof. intros y t H. now left. Qed.
+Lemma lprov_same s s' : (forall y, sg_label (ls_g s') y = sg_label (ls_g s) y) -> lprov s s' [].
+Proof. intros E y t H. left. now rewrite <- E. Qed.
+Lemma lprov_trans s1 s2 s3 a1 a2 : lprov s1 s2 a1 -> lprov s2 s3 a2 -> tri_grow s2 s3 ->
+  lprov s1 s3 (a1 ++ a2).
+Proof.
+  intros H12 H23 Hg y t H. destruct (H23 y t H) as [H2|[H2|[H2|[H2 Hin]]]].
+  - destruct (H12 y t H2) as [H1|[H1|[[H1 [f Hf]]|[H1 Hin]]]]; auto.
+    + right. right. left. split; [exact H1|]. exists f. now apply Hg.
+    + right. right. right. split; [exact H1|]. apply in_or_app. now left.
+  - auto.
+  - auto.
+  - right. right. right. split; [exact H2|]. apply in_or_app. now right.
+Qed.
+Lemma lprov_weaken s s' a a' : incl a a' -> lprov s s' a -> lprov s s' a'.
+Proof. intros Hi H y t Hl. destruct (H y t Hl) as [H1|[H1|[H1|[H1 H2]]]]; auto. right. right. right. split; auto. Qed.
+
 Lemma of_nat_neq0 f : 1 <= f -> Z.of_nat f <> 0%Z /\ (- Z.of_nat f)%Z <> 0%Z.
 Proof. lia. Qed.
 
 Section Tables.
 Variable rc : bool.
+Context {P : Z -> Prop} {st : bool}.
+Definition PF (f : nat) : Prop := P (Z.of_nat f) /\ P (- Z.of_nat f)%Z.
 
-Lemma get_lit_core l s z s' D : core_ok s -> l <> 0%Z -> get_lit rc l s = (z, s') ->
-  core_ok s' /\ ext (ls_g s) (ls_g s') D /\ sg_label (ls_g s') z = Some (GLit l) /\
+Lemma get_lit_core l s z s' D : core_ok P st s -> P l -> get_lit rc l s = (z, s') ->
+  core_ok P st s' /\ ext (ls_g s) (ls_g s') D /\ sg_label (ls_g s') z = Some (GLit l) /\
   ls_tri s' = ls_tri s.
 Proof.
-  intros [HI Hl Hp] Hl0 H. unfold get_lit in H.
+  intros [HI Hl Hp Hj Hs] Hl0 H. unfold get_lit in H.
   destruct (lookupZ (ls_lits s) l) as [x|] eqn:E.
   - injection H as <- <-. split; [now constructor|]. split; [apply ext_refl|]. split; [now apply Hl|reflexivity].
   - destruct (add_node rc (GLit l) (ls_g s)) as [x g'] eqn:Ha. injection H as <- <-. cbn [ls_g ls_tri ls_lits].
@@ -138,13 +182,19 @@ Proof.
     + intros z' l' Hz. destruct (Nat.eq_dec z' x) as [->|Hne].
       * rewrite (add_node_label_new rc _ _ _ _ HI Ha) in Hz. now injection Hz as <-.
       * rewrite (add_node_label_old rc _ _ _ _ Ha z' Hne) in Hz. now apply (Hp z').
+    + intros z' l' Hz. rewrite lookupZ_cons. destruct (Nat.eq_dec z' x) as [->|Hne].
+      * rewrite (add_node_label_new rc _ _ _ _ HI Ha) in Hz. injection Hz as <-. now rewrite Z.eqb_refl.
+      * rewrite (add_node_label_old rc _ _ _ _ Ha z' Hne) in Hz. pose proof (Hj z' l' Hz) as Hz'.
+        destruct (Z.eqb_spec l l') as [->|_]; [congruence|exact Hz'].
+    + intros Hst. exact (add_node_srcs rc _ _ _ _ HI Ha (Hs Hst)).
 Qed.
 
-Lemma ls_add_edge_core a b s s' D : core_ok s -> In a D -> ls_add_edge a b s = Some s' ->
-  core_ok s' /\ ext (ls_g s) (ls_g s') D /\ ls_tri s' = ls_tri s /\ ls_lits s' = ls_lits s /\
+Lemma ls_add_edge_core a b s s' D : core_ok P st s -> In a D -> (st = true -> gate_at (ls_g s) a) ->
+  ls_add_edge a b s = Some s' ->
+  core_ok P st s' /\ ext (ls_g s) (ls_g s') D /\ ls_tri s' = ls_tri s /\ ls_lits s' = ls_lits s /\
   sg_out (ls_g s') a = b :: sg_out (ls_g s) a.
 Proof.
-  intros [HI Hl Hp] Ha H. unfold ls_add_edge in H.
+  intros [HI Hl Hp Hj Hs] Ha Hga H. unfold ls_add_edge in H.
   destruct (add_edge a b (ls_g s)) as [g'|] eqn:E; [|discriminate]. injection H as <-.
   cbn [with_g ls_g ls_tri ls_lits].
   split; [|split; [now apply (add_edge_ext a b _ _ D E)|split; [reflexivity|split; [reflexivity|apply (add_edge_out_same a b _ _ E)]]]].
@@ -152,7 +202,81 @@ Proof.
   - now apply (add_edge_Inv a b _ _ E).
   - intros l z Hz. rewrite (add_edge_label a b _ _ E). now apply Hl.
   - intros z l Hz. rewrite (add_edge_label a b _ _ E) in Hz. now apply (Hp z).
+  - intros z l Hz. rewrite (add_edge_label a b _ _ E) in Hz. now apply (Hj z).
+  - intros Hst. exact (add_edge_srcs a b _ _ E (Hga Hst) (Hs Hst)).
 Qed.
+
+Lemma get_lit_S l s z s' : get_lit rc l s = (z, s') ->
+  (forall y t, sg_label (ls_g s') y = Some t -> sg_label (ls_g s) y = Some t \/ is_litk t) /\ ls_tri s' = ls_tri s.
+Proof.
+  unfold get_lit. destruct (lookupZ (ls_lits s) l) as [x|].
+  - intros H. injection H as <- <-. split; [intros y t Hy; now left|reflexivity].
+  - destruct (add_node rc (GLit l) (ls_g s)) as [x g'] eqn:Ha. intros H. injection H as <- <-.
+    split; [|reflexivity]. intros y t Hy. cbn [ls_g] in *.
+    destruct (Nat.eq_dec y x) as [->|Hne].
+    + right. exists l. unfold add_node in Ha.
+      destruct (if rc then sg_free (ls_g s) else []) as [|f r]; injection Ha as Hx <-.
+      * unfold sg_label in Hy. cbn [sg_nodes] in Hy. rewrite <- Hx, app_nth2, Nat.sub_diag in Hy by lia. cbn in Hy. congruence.
+      * subst f. unfold sg_label in Hy. cbn [sg_nodes] in Hy.
+        destruct (Nat.lt_ge_cases x (length (sg_nodes (ls_g s)))) as [Hlt|Hge].
+        -- rewrite nth_set_nth_eq in Hy by exact Hlt. congruence.
+        -- rewrite nth_overflow in Hy by (rewrite set_nth_length; exact Hge). discriminate.
+    + left. now rewrite <- (add_node_label_old rc _ _ _ _ Ha y Hne).
+Qed.
+
+Lemma ls_add_edge_S a b s s' : ls_add_edge a b s = Some s' ->
+  (forall y, sg_label (ls_g s') y = sg_label (ls_g s) y) /\ ls_tri s' = ls_tri s.
+Proof.
+  unfold ls_add_edge. destruct (add_edge a b (ls_g s)) as [g'|] eqn:E; [|discriminate].
+  intros H. injection H as <-. split; [intros y; apply (add_edge_label a b _ _ E)|reflexivity].
+Qed.
+
+Lemma add_node_label_cases t g g' x y t' : add_node rc t g = (x, g') -> sg_label g' y = Some t' ->
+  (y = x /\ t' = t) \/ (y <> x /\ sg_label g y = Some t').
+Proof.
+  intros Ha Hy. destruct (Nat.eq_dec y x) as [->|Hne].
+  - left. split; [reflexivity|]. unfold add_node in Ha.
+    destruct (if rc then sg_free g else []) as [|f r]; injection Ha as Hx <-.
+    + unfold sg_label in Hy. cbn [sg_nodes] in Hy. rewrite <- Hx, app_nth2, Nat.sub_diag in Hy by lia. cbn in Hy. congruence.
+    + subst f. unfold sg_label in Hy. cbn [sg_nodes] in Hy.
+      destruct (Nat.lt_ge_cases x (length (sg_nodes g))) as [Hlt|Hge].
+      * rewrite nth_set_nth_eq in Hy by exact Hlt. congruence.
+      * rewrite nth_overflow in Hy by (rewrite set_nth_length; exact Hge). discriminate.
+  - right. split; [exact Hne|]. now rewrite <- (add_node_label_old rc _ _ _ _ Ha y Hne).
+Qed.
+
+Lemma add_literal_node_S f at_ s s' : add_literal_node rc f at_ s = Some s' ->
+  lprov s s' [] /\ tri_grow s s'.
+Proof.
+  unfold add_literal_node. destruct (lookup_nat (ls_tri s) f) as [o|] eqn:E.
+  - intros H. destruct (ls_add_edge_S _ _ _ _ H) as [Hl Ht]. split; [now apply lprov_same|now apply tri_grow_eq].
+  - destruct (add_node rc GOr (ls_g s)) as [o g1] eqn:Ha.
+    set (s1 := mkLS g1 (ls_lits s) ((f, o) :: ls_tri s)).
+    destruct (get_lit rc (Z.of_nat f) s1) as [pos s2] eqn:Hpos.
+    destruct (get_lit rc (- Z.of_nat f)%Z s2) as [neg s3] eqn:Hneg.
+    destruct (ls_add_edge at_ o s3) as [s4|] eqn:E4; [|discriminate].
+    destruct (ls_add_edge o pos s4) as [s5|] eqn:E5; [|discriminate].
+    intros H.
+    destruct (get_lit_S _ _ _ _ Hpos) as [P12 T2]. destruct (get_lit_S _ _ _ _ Hneg) as [P23 T3].
+    destruct (ls_add_edge_S _ _ _ _ E4) as [L4 T4]. destruct (ls_add_edge_S _ _ _ _ E5) as [L5 T5].
+    destruct (ls_add_edge_S _ _ _ _ H) as [L6 T6].
+    assert (Ttab : ls_tri s' = (f, o) :: ls_tri s) by (rewrite T6, T5, T4, T3, T2; reflexivity).
+    split.
+    + intros y t Hy. rewrite L6, L5, L4 in Hy.
+      destruct (P23 y t Hy) as [H2|H2]; [|auto].
+      destruct (P12 y t H2) as [H1|H1]; [|auto].
+      cbn [s1 ls_g] in H1. destruct (add_node_label_cases _ _ _ _ _ _ Ha H1) as [[-> ->]|[_ H0]]; [|now left].
+      right. right. left. split; [reflexivity|]. exists f. rewrite Ttab, lookup_nat_cons, Nat.eqb_refl. reflexivity.
+    + intros f' o' Hfo. rewrite Ttab, lookup_nat_cons. destruct (Nat.eqb_spec f f') as [<-|_]; [congruence|exact Hfo].
+Qed.
+
+Lemma gate_at_ext g g' D a : ext g g' D -> gate_at g a -> gate_at g' a.
+Proof. intros He [t [Hl Ht]]. exists t. split; [exact (ext_label_some _ _ _ _ _ He Hl)|exact Ht]. Qed.
+
+Lemma gate_and g a : sg_label g a = Some GAnd -> gate_at g a.
+Proof. intros H. now exists GAnd. Qed.
+Lemma gate_or g a : sg_label g a = Some GOr -> gate_at g a.
+Proof. intros H. now exists GOr. Qed.
 
 (* ---------- add_literal_node ---------- *)
 (* where the entries of the triangle table come from *)
@@ -170,57 +294,66 @@ Proof.
   destruct (sg_alive (ls_g s1) o) eqn:E; [|reflexivity]. now rewrite (ext_alive _ _ _ _ He E) in H2.
 Qed.
 
-Lemma add_literal_node_spec f at_ s s' : tables_ok s -> 1 <= f ->
+Lemma add_literal_node_spec f at_ s s' : tables_ok P st s -> 1 <= f -> PF f ->
   sg_label (ls_g s) at_ = Some GAnd ->
   add_literal_node rc f at_ s = Some s' ->
-  tables_ok s' /\ ext (ls_g s) (ls_g s') [at_] /\ tri_origin s s' /\
+  tables_ok P st s' /\ ext (ls_g s) (ls_g s') [at_] /\ tri_origin s s' /\
   exists o, sg_out (ls_g s') at_ = o :: sg_out (ls_g s) at_ /\ tri_node (ls_g s') f o /\
-            (lookup_nat (ls_tri s) f = Some o \/ sg_alive (ls_g s) o = false).
+            (lookup_nat (ls_tri s) f = Some o \/ sg_alive (ls_g s) o = false) /\
+            lookup_nat (ls_tri s') f = Some o.
 Proof.
-  intros [Hc Ht] Hf Hat H. unfold add_literal_node in H.
+  intros [Hc Ht] Hf [Hfp Hfn] Hat H. unfold add_literal_node in H.
   assert (Haa : sg_alive (ls_g s) at_ = true) by (unfold sg_alive; now rewrite Hat).
   destruct (lookup_nat (ls_tri s) f) as [o|] eqn:E.
   - (* the triangle exists already *)
-    destruct (ls_add_edge_core at_ o s s' [at_] Hc (or_introl eq_refl) H) as [Hc' [He [Htri [_ Ho]]]].
+    destruct (ls_add_edge_core at_ o s s' [at_] Hc (or_introl eq_refl) (fun _ => gate_and _ _ Hat) H) as [Hc' [He [Htri [_ Ho]]]].
     assert (Ht' : tris_ok s').
     { apply (tris_ok_ext s s' [at_] Ht He); [|exact Htri]. intros y [<-|[]]. congruence. }
     split; [split; assumption|]. split; [exact He|].
     split; [intros f' o' Hfo; left; now rewrite <- Htri|].
-    exists o. split; [exact Ho|]. split; [|now left].
+    exists o. split; [exact Ho|]. split; [|split; [now left|now rewrite Htri]].
     apply Ht'. now rewrite Htri.
   - (* a new triangle *)
     destruct (add_node rc GOr (ls_g s)) as [o g1] eqn:Ha.
-    destruct Hc as [HI Hl Hp].
+    destruct Hc as [HI Hl Hp Hj Hsr].
     pose proof (add_node_label_new rc _ _ _ _ HI Ha) as Hlo1.
     pose proof (add_node_no_out rc _ _ _ _ HI Ha) as Hoo1.
     pose proof (add_node_fresh rc _ _ _ _ HI Ha) as Hfresh.
     assert (Hod : sg_alive (ls_g s) o = false) by (unfold sg_alive; now rewrite Hfresh).
     assert (Hne : at_ <> o) by (intros ->; congruence).
     set (s1 := mkLS g1 (ls_lits s) ((f, o) :: ls_tri s)) in H.
-    assert (Hc1 : core_ok s1).
+    assert (Hc1 : core_ok P st s1).
     { constructor; cbn [s1 ls_g ls_lits ls_tri].
       - apply (add_node_Inv rc _ _ _ _ HI Ha).
       - intros l z Hz. apply (ext_label_some _ _ [] _ _ (add_node_ext rc _ _ _ _ [] HI Ha)). now apply Hl.
       - intros z l Hz. destruct (Nat.eq_dec z o) as [->|Hzo]; [congruence|].
-        rewrite (add_node_label_old rc _ _ _ _ Ha z Hzo) in Hz. now apply (Hp z). }
+        rewrite (add_node_label_old rc _ _ _ _ Ha z Hzo) in Hz. now apply (Hp z).
+      - intros z l Hz. destruct (Nat.eq_dec z o) as [->|Hzo]; [congruence|].
+        rewrite (add_node_label_old rc _ _ _ _ Ha z Hzo) in Hz. now apply (Hj z).
+      - intros Hst. exact (add_node_srcs rc _ _ _ _ HI Ha (Hsr Hst)). }
     pose proof (add_node_ext rc _ _ _ _ [o; at_] HI Ha) as He01. change g1 with (ls_g s1) in He01, Hlo1, Hoo1.
-    destruct (of_nat_neq0 f Hf) as [Hfp Hfn].
     destruct (get_lit rc (Z.of_nat f) s1) as [pos s2] eqn:Hpos.
     destruct (get_lit_core (Z.of_nat f) s1 pos s2 [o; at_] Hc1 Hfp Hpos) as [Hc2 [He12 [Hlp2 Htri2]]].
     destruct (get_lit rc (- Z.of_nat f)%Z s2) as [neg s3] eqn:Hneg.
     destruct (get_lit_core (- Z.of_nat f)%Z s2 neg s3 [o; at_] Hc2 Hfn Hneg) as [Hc3 [He23 [Hln3 Htri3]]].
     destruct (ls_add_edge at_ o s3) as [s4|] eqn:E4; [|discriminate].
-    destruct (ls_add_edge_core at_ o s3 s4 [o; at_] Hc3 (or_intror (or_introl eq_refl)) E4) as [Hc4 [He34 [Htri4 [_ Ho4]]]].
+    assert (Hg3 : gate_at (ls_g s3) at_)
+      by exact (gate_at_ext _ _ _ _ He23 (gate_at_ext _ _ _ _ He12 (gate_at_ext _ _ _ _ He01 (gate_and _ _ Hat)))).
+    assert (Hg3o : gate_at (ls_g s3) o)
+      by exact (gate_at_ext _ _ _ _ He23 (gate_at_ext _ _ _ _ He12 (gate_or _ _ Hlo1))).
+    destruct (ls_add_edge_core at_ o s3 s4 [o; at_] Hc3 (or_intror (or_introl eq_refl)) (fun _ => Hg3) E4) as [Hc4 [He34 [Htri4 [_ Ho4]]]].
+    pose proof (gate_at_ext _ _ _ _ He34 Hg3o) as Hg4o.
     destruct (ls_add_edge o pos s4) as [s5|] eqn:E5; [|discriminate].
-    destruct (ls_add_edge_core o pos s4 s5 [o; at_] Hc4 (or_introl eq_refl) E5) as [Hc5 [He45 [Htri5 [_ Ho5]]]].
-    destruct (ls_add_edge_core o neg s5 s' [o; at_] Hc5 (or_introl eq_refl) H) as [Hc6 [He56 [Htri6 [_ Ho6]]]].
+    destruct (ls_add_edge_core o pos s4 s5 [o; at_] Hc4 (or_introl eq_refl) (fun _ => Hg4o) E5) as [Hc5 [He45 [Htri5 [_ Ho5]]]].
+    pose proof (gate_at_ext _ _ _ _ He45 Hg4o) as Hg5o.
+    destruct (ls_add_edge_core o neg s5 s' [o; at_] Hc5 (or_introl eq_refl) (fun _ => Hg5o) H) as [Hc6 [He56 [Htri6 [_ Ho6]]]].
     (* the same steps with the sharper sets of changed nodes *)
     pose proof (add_node_ext rc _ _ _ _ [] HI Ha) as He01'. change g1 with (ls_g s1) in He01'.
     pose proof (get_lit_core (Z.of_nat f) s1 pos s2 [] Hc1 Hfp Hpos) as [_ [He12' _]].
     pose proof (get_lit_core (- Z.of_nat f)%Z s2 neg s3 [] Hc2 Hfn Hneg) as [_ [He23' _]].
-    pose proof (ls_add_edge_core at_ o s3 s4 [at_] Hc3 (or_introl eq_refl) E4) as [_ [He34' _]].
-    pose proof (ls_add_edge_core o pos s4 s5 [o] Hc4 (or_introl eq_refl) E5) as [_ [He45' _]].
-    pose proof (ls_add_edge_core o neg s5 s' [o] Hc5 (or_introl eq_refl) H) as [_ [He56' _]].
+    pose proof (ls_add_edge_core at_ o s3 s4 [at_] Hc3 (or_introl eq_refl) (fun _ => Hg3) E4) as [_ [He34' _]].
+    pose proof (ls_add_edge_core o pos s4 s5 [o] Hc4 (or_introl eq_refl) (fun _ => Hg4o) E5) as [_ [He45' _]].
+    pose proof (ls_add_edge_core o neg s5 s' [o] Hc5 (or_introl eq_refl) (fun _ => Hg5o) H) as [_ [He56' _]].
     pose proof (ext_trans _ _ _ _ He12' He23') as He13'.
     pose proof (ext_trans _ _ _ _ He45' He56') as He46'.
     pose proof (ext_trans _ _ _ _ He34 (ext_trans _ _ _ _ He45 He56)) as He36.
@@ -250,9 +383,10 @@ Proof.
       split; [exact (ext_label_some _ _ _ _ _ He36 Hln3)|exact (ext_label_some _ _ _ _ _ He26 Hlp2)]. }
     assert (Htab : ls_tri s' = (f, o) :: ls_tri s)
       by (rewrite Htri6, Htri5, Htri4, Htri3, Htri2; reflexivity).
-    split; [split; [exact Hc6|]|split; [exact He|split; [|exists o; split; [exact Hat6|split; [exact Htn|now right]]]]].
+    split; [split; [exact Hc6|]|split; [exact He|split; [|exists o; split; [exact Hat6|split; [exact Htn|split; [now right|]]]]]].
     2:{ intros f' o' Hfo. rewrite Htab, lookup_nat_cons in Hfo.
         destruct (Nat.eqb f f'); [injection Hfo as <-; now right|now left]. }
+    2:{ rewrite Htab, lookup_nat_cons, Nat.eqb_refl. reflexivity. }
     intros f' o' Hfo. rewrite Htri6, Htri5, Htri4, Htri3, Htri2 in Hfo. cbn [s1 ls_tri] in Hfo.
     rewrite lookup_nat_cons in Hfo. destruct (Nat.eqb_spec f f') as [<-|Hff].
     + injection Hfo as <-. exact Htn.
@@ -265,24 +399,31 @@ Definition tri_child (s : lstate) (g' : sgraph) (o : nat) : Prop :=
   (exists f, tri_node g' f o) /\
   ((exists f, lookup_nat (ls_tri s) f = Some o) \/ sg_alive (ls_g s) o = false).
 
-Lemma add_literal_nodes_spec at_ : forall fs s s', tables_ok s -> Forall (fun f => 1 <= f) fs ->
+Lemma add_literal_nodes_spec at_ : forall fs s s', tables_ok P st s -> Forall (fun f => 1 <= f /\ PF f) fs ->
   sg_label (ls_g s) at_ = Some GAnd ->
   add_literal_nodes rc fs at_ s = Some s' ->
-  tables_ok s' /\ ext (ls_g s) (ls_g s') [at_] /\ tri_origin s s' /\
+  tables_ok P st s' /\ ext (ls_g s) (ls_g s') [at_] /\ tri_origin s s' /\
   exists tris, sg_out (ls_g s') at_ = tris ++ sg_out (ls_g s) at_ /\
-               Forall (tri_child s (ls_g s')) tris.
+               Forall (tri_child s (ls_g s')) tris /\
+               Forall2 (fun f o => lookup_nat (ls_tri s') f = Some o) (rev fs) tris.
 Proof.
   induction fs as [|f r IH]; intros s s' Hok Hfs Hat H; cbn [add_literal_nodes] in H.
   - injection H as <-. split; [exact Hok|]. split; [apply ext_refl|]. split; [apply tri_origin_refl|].
-    exists []. split; [reflexivity|constructor].
-  - inversion Hfs as [|? ? Hf Hr]; subst.
+    exists []. split; [reflexivity|split; constructor].
+  - inversion Hfs as [|? ? [Hf Hpf] Hr]; subst.
     destruct (add_literal_node rc f at_ s) as [s1|] eqn:E1; [|discriminate].
-    destruct (add_literal_node_spec f at_ s s1 Hok Hf Hat E1) as [Hok1 [He1 [Hor1 [o [Ho [Hto Hoo]]]]]].
+    destruct (add_literal_node_spec f at_ s s1 Hok Hf Hpf Hat E1) as [Hok1 [He1 [Hor1 [o [Ho [Hto [Hoo Hlk]]]]]]].
     assert (Hat1 : sg_label (ls_g s1) at_ = Some GAnd) by exact (ext_label_some _ _ _ _ _ He1 Hat).
-    destruct (IH s1 s' Hok1 Hr Hat1 H) as [Hok' [He2 [Hor2 [tris [Ht1 Ht2]]]]].
+    destruct (IH s1 s' Hok1 Hr Hat1 H) as [Hok' [He2 [Hor2 [tris [Ht1 [Ht2 Ht3]]]]]].
+    assert (Hgrow : tri_grow s1 s').
+    { clear -H. revert s1 H. induction r as [|f0 r0 IHr]; intros s1 H; cbn [add_literal_nodes] in H.
+      - injection H as <-. apply tri_grow_refl.
+      - destruct (add_literal_node rc f0 at_ s1) as [s2|] eqn:E2; [|discriminate].
+        exact (tri_grow_trans _ _ _ (proj2 (add_literal_node_S _ _ _ _ E2)) (IHr _ H)). }
     split; [exact Hok'|]. split; [exact (ext_trans _ _ _ _ He1 He2)|].
     split; [exact (tri_origin_trans _ _ _ _ He1 Hor1 Hor2)|].
     exists (tris ++ [o]). split; [rewrite Ht1, Ho, <- app_assoc; reflexivity|].
+    split; [|cbn [rev]; apply Forall2_app; [exact Ht3|repeat constructor; now apply Hgrow]].
     apply Forall_app. split.
     + eapply Forall_impl; [|exact Ht2]. intros o' [Htn [[f' Hf']|Hd]]; split; try exact Htn.
       * destruct (Hor1 f' o' Hf') as [H1|H1]; [left; now exists f'|now right].
